@@ -89,6 +89,18 @@ func genMsgs(t *rapid.T, f focus) []msgDef {
 		default:
 			m.Args = genBytes(1, 48).Draw(t, "args")
 		}
+		// boundary sizes of the outbound request record, and Args lengths around the var-bytes prefix switches
+		q := 8
+		if f == fC22 {
+			q = 3
+		}
+		switch rapid.IntRange(0, q).Draw(t, "sizeclass") {
+		case 0:
+			m.ReqLen = rapid.SampledFrom(reqLenClasses).Draw(t, "reqlen")
+		case 1:
+			m.RArgs, m.Args = false, nil
+			m.ArgsLen = rapid.SampledFrom([]int{252, 253, 254, 65534, 65535, 65536, 65537}).Draw(t, "argsedge")
+		}
 		out[i] = m
 	}
 	return out
